@@ -1242,6 +1242,72 @@ def _sanity(rep) -> None:
         rep.checker_error("oracle sanity: 'abab' in (ab)* not valid for Z3")
 
 
+HISTORY_TEMPLATES = [
+    # (name, SMT-LIB atom over the string variables w and l)
+    ("in_re-plus-of-variable", '(str.in_re w (re.+ (str.to_re l)))'),
+    ("in_re-variable-then-any", '(str.in_re w (re.++ (str.to_re l) (re.* re.allchar)))'),
+    ("in_re-union-with-variable", '(str.in_re w (re.union (str.to_re l) (str.to_re "ab")))'),
+    ("in_re-opt-variable-variable", '(str.in_re w (re.++ (re.opt (str.to_re l)) (str.to_re l)))'),
+    ("concat-equals", '(= (str.++ w l) "aaa")'),
+    ("length-compare", '(> (str.len w) (str.len l))'),
+    ("at-equals-variable", '(= (str.at w 0) l)'),
+    ("substr-equals-variable", '(= (str.substr w 1 1) l)'),
+]
+
+
+def history_family(rep) -> None:
+    """family iii (histories): ONE parametric atom (a variable inside the regular expression / in several argument
+    positions) is decided for a sequence of different instantiations in one process, in two orders -- the fast
+    path keeps closures per atom (lru_cache on evaluate_z3_expression), so a verdict must not depend on what was
+    evaluated before.  Oracle: Z3 on the ground instance."""
+    import z3
+    import isla.language as L
+    from isla.evaluator import evaluate
+    from isla.derivation_tree import DerivationTree
+    ws, ls = ["aa", "bb", "ab", "a"], ["a", "b"]
+    grammar = {"<start>": ["<w>;<l>"], "<w>": ws, "<l>": ls}
+
+    def tree(w, l):
+        return DerivationTree("<start>", (DerivationTree("<w>", (DerivationTree(w, ()),)), DerivationTree(";", ()),
+                                          DerivationTree("<l>", (DerivationTree(l, ()),))))
+    n = 0
+    for name, atom in HISTORY_TEMPLATES:
+        text = f"forall <w> w in start: forall <l> l in start: {atom}"
+        try:
+            with contextlib.redirect_stderr(io.StringIO()):
+                formula = L.parse_isla(text, grammar)
+        except BaseException as ex:  # noqa
+            rep.note_inconclusive(f"history family: parse_isla rejects {text!r}: {_exc_text(ex)}")
+            continue
+        combos = [(w, l) for w in ws for l in ls]
+        for order_name, order in (("forward", combos), ("backward", list(reversed(combos)))):
+            for w, l in order:
+                decls = "(declare-const w String)(declare-const l String)"
+                ground = z3.parse_smt2_string(f"{decls}(assert {atom})")[0]
+                ground = z3.substitute(ground, (z3.String("w"), z3.StringVal(w)), (z3.String("l"), z3.StringVal(l)))
+                expected = z3_truth(ground)
+                try:
+                    got = _tv(evaluate(formula, tree(w, l), grammar))
+                    detail = ""
+                except Exception as ex:  # noqa
+                    got, detail = "raises", _exc_text(ex)
+                n += 1
+                rep.case(key=("history", name, order_name, w, l), nontrivial=True,
+                         sample=dict(family="history", atom=atom, w=w, l=l, order=order_name) if n <= 2 else None)
+                if expected is None:
+                    rep.note_inconclusive(f"history family: oracle undecided on {atom} w={w!r} l={l!r}")
+                    continue
+                want = "TRUE" if expected else "FALSE"
+                if got != want:
+                    rep.violation(f"evaluate:history:{name}:{'raises' if got == 'raises' else 'verdict-depends-on-earlier-evaluations-or-wrong'}",
+                                  f"evaluate({text!r}) on {w};{l} after the {order_name} sequence of instantiations: ISLa {got} "
+                                  f"{detail}, Z3 says {want} for the ground atom",
+                                  dict(module=MODULE, case=dict(family="history", atom=atom, text=text, w=w, l=l,
+                                                                order=[list(x) for x in order[:order.index((w, l)) + 1]]),
+                                       expected=want, got=got, detail=detail))
+    rep.section("C05.history", evaluations=n, templates=len(HISTORY_TEMPLATES))
+
+
 def run(rep, tier, seed):
     import warnings
     warnings.filterwarnings("ignore")
@@ -1272,6 +1338,13 @@ def run(rep, tier, seed):
               "; subjects <= 4 characters; loops " + json.dumps(LOOPS))
     rep.exhaustive = False
     _sanity(rep)
+    rep.rule("family iii (histories): parametric atoms with a variable inside the regular expression or in several "
+             "argument positions, decided through evaluate() for all instantiations in sequence, forward and backward, in "
+             "one process; expected verdict: Z3 on the ground instance")
+    try:
+        history_family(rep)
+    except Exception as ex:  # noqa
+        rep.checker_error("history family crashed: " + _exc_text(ex))
 
     global THOROUGH
     THOROUGH = tier == "thorough"
